@@ -457,7 +457,7 @@ def check_C14(tier, seed, replay=None):
         g.compute_args()
         g.maydiverge = g.may_diverge()
         groups.append(g)
-    X, Y, D, Cc = 120, 121, 100, 99
+    X, Y, D, Cc = 120, F.B, F.B, F.A        # every terminal of the probes is in the input alphabet {a, b, x}
     probe(lambda g: setattr(g, "rules", [g.recover(g.recover(g.seq([g.lit([F.A]), g.throw("la")]), g.lit([X]), ["la"]), g.lit([Y]), ["la"])]))
     probe(lambda g: setattr(g, "rules", [g.recover(g.recover(g.seq([g.lit([F.A]), g.throw("lb")]), g.lit([X]), ["la"]), g.lit([Y]), ["lb", "la"])]))
     probe(lambda g: setattr(g, "rules", [g.seq([g.recover(g.seq([g.lit([F.A]), g.throw("la"), g.lit([Cc])]), g.lit([X]), ["la"]), g.lit([D])])]))
